@@ -23,7 +23,7 @@ Definition init_of (c : c38_input) : option st :=
   match c with
   | IProg b => Some (init_prog b)
   | ISync b t => Some (init_sync b t)
-  | IThreads _ _ => None
+  | IThreads _ _ _ => None
   end.
 
 Lemma Inv_init c s0 : init_of c = Some s0 -> Inv [] s0.
@@ -240,3 +240,41 @@ Proof.
            destruct (j_liveb NN NCP) as [H|H]; [rewrite R0 in H; destruct H|congruence].
         -- right; right; right; left. auto.
 Qed.
+
+(* ---------- add_callback from other threads onto an idle loop ---------- *)
+Lemma x_fold_threadsafe calls : forall l,
+  (forall ca, In ca calls -> fst ca <> CSameLoop) ->
+  let l' := fold_left (fun l ca => x_add (fst ca) (snd ca) l) calls l in
+  x_ready l' = x_ready l ++ map snd calls /\ x_ran l' = x_ran l /\
+  x_woken l' = (match calls with [] => x_woken l | _ => true end).
+Proof.
+  induction calls as [|[c a] calls IH]; intros l H; simpl.
+  - rewrite app_nil_r. auto.
+  - assert (Hc : c <> CSameLoop) by (apply (H (c, a)); left; reflexivity).
+    destruct (IH (x_add c a l)) as (A & B & C); [intros ca Hin; apply H; right; auto|].
+    simpl in A, B, C. rewrite A, B, C.
+    unfold x_add, add_callback_path. destruct c; [congruence| |]; simpl; rewrite <- app_assoc; simpl;
+      (split; [reflexivity|split; [reflexivity|destruct calls; reflexivity]]).
+Qed.
+
+(* every add_callback made from a thread other than the loop's own (whether that thread runs another event loop or
+   none) onto a loop that is idle in select() is delivered: the loop runs all of them, each once, in arrival order,
+   and nothing stays behind in the ready queue -- no further wake-up is needed *)
+Theorem cross_thread_add_callback_delivered calls :
+  (forall ca, In ca calls -> fst ca <> CSameLoop) ->
+  x_ran (x_deliver calls) = map snd calls /\ x_ready (x_deliver calls) = [].
+Proof.
+  intro H. unfold x_deliver. destruct (x_fold_threadsafe calls x_idle H) as (A & B & C).
+  unfold x_settle. rewrite C. destruct calls as [|ca calls]; simpl in *.
+  - auto.
+  - rewrite B, A. simpl. auto.
+Qed.
+
+(* the decision matters: were a caller running ANOTHER loop treated like the loop's own thread (plain call_soon,
+   as in seeded change C38_3), the callback would stay in the ready queue of the sleeping loop *)
+Lemma call_soon_from_another_thread_is_not_delivered a :
+  let l := x_settle (x_add_via PCallSoon a x_idle) in x_ran l = [] /\ x_ready l = [a].
+Proof. simpl. auto. Qed.
+
+Lemma add_callback_path_spec c : add_callback_path c = PCallSoon <-> c = CSameLoop.
+Proof. destruct c; simpl; split; intro H; congruence. Qed.
